@@ -162,17 +162,20 @@ PROPS["C20"] = {
     "title": "Wait is a write barrier and always returns",
     "technique": "SSA symbolic execution with controlled threads (schedule choices explored exhaustively within a preemption bound) of the real Store.Set/Delete/Wait and maintenance loop; deadlock detection; barrier oracle",
     "level_text": "Bounded model checking over schedules: W goroutines call the real Wait() concurrently after (or while) writes on a capacity-2 cache; every interleaving at synchronisation granularity within the preemption bound is executed on the real code; a state in which a Wait caller can never run again is a deadlock counterexample; at each return of Wait the accounting equalities and stored = resident + notified are asserted.",
-    "level_note": _thr_note + "Bounds: <=3 waiters, <=3 writes, preemption bound 0 (quick) / 1 (thorough), write-batch size 128 and 2.",
+    "level_note": _thr_note + "Bounds: <=3 waiters, <=3 writes, preemption bound 1 (thorough 2), write-batch size 128 and 2.",
     "assumptions": ["writes issued before the waiters start (ZZ_C20_Waiters) or by one concurrent writer (ZZ_C20_WaitWithWriter)"],
     "outside_bound": ["more than 3 concurrent waiters", "preemption bound above 1", "timer ticks during Wait"],
     "quick": [H("ZZ_C20_Waiters", params={"WAITERS": 2}, reach=["all-waiters-returned"], bounds="2 waiters, 3 writes + 1 delete, preemptions 0"),
               H("ZZ_C20_Waiters", params={"WAITERS": 2, "WB": 2}, reach=["all-waiters-returned"], bounds="2 waiters, batch size 2 (markers across batch boundaries)"),
-              H("ZZ_C20_WaitWithWriter", params={"PRE": 0}, reach=["all-returned"], bounds="1 writer x3 + 2 waiters, preemptions 0")],
+              H("ZZ_C20_Waiters", params={"WAITERS": 1, "PRE": 1}, reach=["all-waiters-returned"], bounds="1 waiter, preemptions 1 (a wake-up delivered before the batch is applied is observable)"),
+              H("ZZ_C20_Waiters", params={"WAITERS": 2, "PRE": 1}, reach=["all-waiters-returned"], bounds="2 waiters, preemptions 1"),
+              H("ZZ_C20_WaitWithWriter", params={"PRE": 1}, reach=["all-returned"], bounds="1 writer x3 + 2 waiters, preemptions 1")],
     "thorough": [H("ZZ_C20_Waiters", params={"WAITERS": 2}, reach=["all-waiters-returned"]),
                  H("ZZ_C20_Waiters", params={"WAITERS": 2, "WB": 2}, reach=["all-waiters-returned"]),
                  H("ZZ_C20_Waiters", params={"WAITERS": 3, "WRITES": 2}, reach=["all-waiters-returned"], bounds="3 waiters"),
-                 H("ZZ_C20_Waiters", params={"WAITERS": 2, "PRE": 1}, reach=["all-waiters-returned"], bounds="2 waiters, preemptions 1"),
-                 H("ZZ_C20_WaitWithWriter", params={"PRE": 0}, reach=["all-returned"])],
+                 H("ZZ_C20_Waiters", params={"WAITERS": 2, "PRE": 2}, reach=["all-waiters-returned"], bounds="2 waiters, preemptions 2"),
+                 H("ZZ_C20_Waiters", params={"WAITERS": 3, "WRITES": 2, "PRE": 1}, reach=["all-waiters-returned"], bounds="3 waiters, preemptions 1"),
+                 H("ZZ_C20_WaitWithWriter", params={"PRE": 1}, reach=["all-returned"])],
 }
 
 def _c10(pre):
@@ -216,6 +219,7 @@ PROPS["C01"] = {
               H("ZZ_C01_Linearizable", params={"PRE": 0, "LOADING": 1}, reach=["history-complete"], bounds="loading cache"),
               H("ZZ_C01_Linearizable", params={"PRE": 0, "DOOR": 1}, reach=["history-complete"], bounds="doorkeeper on"),
               H("ZZ_C13_LoadingWithWriter", params={"PRE": 1}, reach=["both-finished"], bounds="loading Get vs Set/Delete of the same key: load-and-store atomic with respect to writers"),
+              H("ZZ_C05_DeleteVsReset", params={"PRE": 1}, reach=["drained"], bounds="Delete racing a Set of the same key: the old incarnation's eviction must not remove the new one"),
               H("ZZ_C01_RBMutex", params={"READERS": 2, "PRE": 2}, reach=["all-done"], bounds="1 writer, 2 readers, atomic granularity, preemptions 2")],
     "thorough": [H("ZZ_C01_Linearizable", params={"PRE": 1}, reach=["history-complete"], bounds="2x2 ops, cap 1, preemptions 1"),
                  H("ZZ_C01_Linearizable", params={"PRE": 0, "POOL": 1, "POOLMODE": 2}, reach=["history-complete"], bounds="entry pool on, adversarial reuse"),
@@ -253,8 +257,9 @@ PROPS["C05"] = {
     "quick": [H("ZZ_C05_DeleteVsEvict", params={"PRE": 1}, reach=["drained"]), H("ZZ_C05_DeleteVsEvict", params={"PRE": 1, "POOL": 1}, reach=["drained"]),
               H("ZZ_C05_DeleteVsExpire", params={"PRE": 1}, reach=["drained"]), H("ZZ_C05_EvictVsExpire", params={"PRE": 1}, reach=["drained"]),
               H("ZZ_C05_ExpiredOnArrival", reach=["drained", "expired-on-arrival"], bounds="TTL, processing time and cached-clock reading symbolic"),
+              H("ZZ_C05_DeleteVsReset", params={"PRE": 1}, reach=["drained"], bounds="Delete racing a Set of the same key (new incarnation), capacity 1"),
               H("ZZ_C05_Rejected", reach=["drained", "doorkeeper-rejected"])],
-    "thorough": [H("ZZ_C05_ExpiredOnArrival", reach=["drained", "expired-on-arrival"]), H("ZZ_C05_DeleteVsEvict", params={"PRE": 2}, reach=["drained"]), H("ZZ_C05_DeleteVsEvict", params={"PRE": 2, "POOL": 1}, reach=["drained"]),
+    "thorough": [H("ZZ_C05_DeleteVsReset", params={"PRE": 2}, reach=["drained"]), H("ZZ_C05_ExpiredOnArrival", reach=["drained", "expired-on-arrival"]), H("ZZ_C05_DeleteVsEvict", params={"PRE": 2}, reach=["drained"]), H("ZZ_C05_DeleteVsEvict", params={"PRE": 2, "POOL": 1}, reach=["drained"]),
                  H("ZZ_C05_DeleteVsExpire", params={"PRE": 2}, reach=["drained"]), H("ZZ_C05_EvictVsExpire", params={"PRE": 2}, reach=["drained"]),
                  H("ZZ_C05_Rejected", reach=["drained", "doorkeeper-rejected"])],
 }
